@@ -892,6 +892,20 @@ class PytatoKeyBuilder(LoopyKeyBuilder):
         self.rec(key_hash, key.shape)
         self.rec(key_hash, key.data.tobytes())
 
+    def update_for_numpy_scalar(self, key_hash: Any, key: Any) -> None:
+        import numpy as np
+        # NumPy scalars of one kind compare (and hash) by value, whatever
+        # their width: np.int32(4) == 4, np.float32(1.5) == 1.5 - and so do
+        # the graphs that hold them (an axis length, a shift, a constant)
+        if isinstance(key, np.integer):
+            self.update_for_int(key_hash, int(key))
+        elif isinstance(key, np.floating) and key.dtype.itemsize <= 8:
+            key_hash.update(float(key).hex().encode("utf8"))
+        elif isinstance(key, np.complexfloating) and key.dtype.itemsize <= 16:
+            self.update_for_complex(key_hash, complex(key))
+        else:
+            super().update_for_numpy_scalar(key_hash, key)
+
     def update_for_TaggableCLArray(self, key_hash: Any, key: Any) -> None:
         from arraycontext.impl.pyopencl.taggable_cl_array import (  # pylint: disable=import-error
             TaggableCLArray,
